@@ -562,6 +562,18 @@ void op_util(Ctx& c, const Op& op) {
         break;
     case 9:
         sink(x | z);
+        {
+            // an array concatenated / combined with ITSELF (aliasing operands)
+            arr_real a = x;
+            a |= a;
+            a += a;
+            a *= a;
+            sink(a | a);
+            arr_cmplx b = z;
+            b |= b;
+            b -= b;
+            sink(b);
+        }
         break;
     case 10:
         sink(dsplib::linspace(0, 1, size_t(1 + op.iarg(3))));
